@@ -18,16 +18,21 @@ for e, fns, uw, bd in [("table", ["InitFields"], 100, None),
                        ("DecodeFIM", ["DecodeFIM", "DecodeRReg"], 10, "pair operand text of at most 4 characters")]:
     GROUPS.append(G("i4004_" + e, H4, "h_" + e, enforce=[], link=["bpemu.c"], stubs=["stubs/gerr.c"], unwind=uw, timeout=600, dfcc=False, drop_unused=True,
                     object_bits=12, defs=["-DSTRINGSIZE=64"], functions=fns, bounded=bd))
+HP = "harness/C14/h_code16c8x.c"
+for e, fns, uw in [("table", ["InitFields"], 70), ("DecodeFixed", ["DecodeFixed"], 8), ("DecodeLit", ["DecodeLit"], 8), ("DecodeAri", ["DecodeAri", "EvalFExpression"], 10),
+                   ("DecodeBit", ["DecodeBit", "EvalFExpression"], 8), ("DecodeF", ["DecodeF", "EvalFExpression"], 8), ("DecodeJump", ["DecodeJump"], 8)]:
+    GROUPS.append(G("pic16_" + e, HP, "h_" + e, enforce=[], link=["bpemu.c"], stubs=["stubs/gerr.c"], unwind=uw, timeout=600, dfcc=False, drop_unused=True,
+                    object_bits=12, defs=["-DSTRINGSIZE=64"], functions=fns))
 TRUSTED_BASE = ["formula parser replaced by an oracle returning an arbitrary integer and flags (goto-instrument --replace-calls)",
                 "code4004 harness: formula evaluator = oracle constrained by its contract (OK => value within the requested integer type; that contract is the obligation rng_EvalStrInt_range), register-alias lookup = oracle, instruction hash table = logging stub",
-                "the reference 4004/4040 opcode table in harness/C14/h_code4004.c was written from the Intel MCS-4 / MCS-40 documentation"]
+                "the reference 4004/4040 opcode table in harness/C14/h_code4004.c was written from the Intel MCS-4 / MCS-40 documentation, the PIC16C8x table in h_code16c8x.c from the Microchip data sheet"]
 ASSUMPTIONS = ["each code generator passes the integer type of its field to EvalStrIntExpression (checked for the 4004 handlers only)"]
-NOT_COVERED = ["every instruction handler of code65.c, code85.c, codez80.c, codemsp.c, code16c8x.c, codeavr.c (opcode/operand encodings) -- six of the seven ISAs named in the property",
+NOT_COVERED = ["every instruction handler of code65.c, code85.c, codez80.c, codemsp.c, codeavr.c (opcode/operand encodings) -- five of the seven ISAs named in the property", "PIC16C8x: TRIS, BANKSEL, ZERO, DATA/RES, SFR pseudo instructions",
                "4004: DATA/DS pseudo instructions, register symbols defined with REG"]
 EXPLANATION = ("Decided: (1) the shared half of the property for every target: an operand value outside the range of the integer type its field is evaluated with is rejected with an "
                "error (never silently truncated), a fitting value is passed on unchanged, the type table holds the documented ranges; (2) for the Intel 4004/4040 the whole code "
                "generator: the instruction table against an independent opcode table, and every operand form (register and register-pair syntax, 4-bit and 8-bit immediates, 12-bit "
-               "jump targets, page rule of ISZ/JCN) against the manufacturer's encoding. The other six instruction sets named in the property are not under contract.")
+               "jump targets, page rule of ISZ/JCN) against the manufacturer's encoding. (3) for the PIC16C8x the instruction table against an independent table of the 14-bit opcodes and DecodeFixed/Lit/Ari/Bit/F/Jump (destination bit, 7-bit file address within the bank, 3-bit bit number, 8-bit literal, 11-bit target with the PCLATH page bits set first when the target lies in another 2K page, targets outside the program memory rejected). The other five instruction sets named in the property are not under contract.")
 MANIFEST = dict(
     category="other",
     text="(1) Shared range-rejection path for all targets: integer type table built by asmpars_init and the tail of EvalStrIntExpressionWithResult (fits => unchanged, outside => "
@@ -35,7 +40,7 @@ MANIFEST = dict(
          "documented mnemonic is in the instruction table with its documented opcode, operand form and minimum CPU (independent reference table); DecodeFixed/OneReg/OneRReg/AccReg "
          "path/Imm4/FullJmp/ISZ/JCN/FIM produce exactly the manufacturer's bytes for every operand (register names R0..RF/R00..R15, pairs RnP and R<2n>R<2n+1>, immediates through "
          "the 4-/8-/12-bit types), reject everything else with an error and no code, and apply the next-instruction page rule to ISZ and JCN. The other six ISAs named in the property "
-         "are NOT covered.",
+         "are NOT covered. (3) PIC16C8x (code16c8x.c): instruction table against an independent reference, and every machine-instruction handler (fixed, literal, byte-oriented with destination, bit-oriented, CLRF/MOVWF, CALL/GOTO with page handling) for every operand value.",
     note="Operand texts are bounded to 6 characters (register parsers are loop-bounded by the syntax itself). Trusted: evaluator and alias oracles, the reference opcode table. One defect "
          "found and repaired (ISZ page rule).",
 )
